@@ -399,6 +399,37 @@ func c11twin(r *rand.Rand, l []byte) []byte {
 	return o
 }
 
+// c11longName builds a name of exactly total octets (length octets included).
+func c11longName(r *rand.Rand, total int, forEntry bool) [][]byte {
+	var ls [][]byte
+	for total >= 2 {
+		l := c11label(r, forEntry)
+		if len(l)+1 > total || total-(len(l)+1) == 1 {
+			n := total - 1
+			if n > 63 {
+				n = 61
+			}
+			l = bytes.Repeat([]byte{"abz"[r.Intn(3)]}, n)
+		}
+		ls = append(ls, l)
+		total -= len(l) + 1
+	}
+	return ls
+}
+
+// c11fit drops leading labels until the name has at most max octets.
+func c11fit(ls [][]byte, max int) [][]byte {
+	total := 0
+	for _, l := range ls {
+		total += len(l) + 1
+	}
+	for total > max {
+		total -= len(ls[0]) + 1
+		ls = ls[1:]
+	}
+	return ls
+}
+
 func c11okInLine(l []byte) bool {
 	return !bytes.ContainsAny(l, ".#:\n")
 }
@@ -444,15 +475,13 @@ func c11random(r *rand.Rand, emit func(c, cat string)) {
 					ls = p
 				}
 			}
-		case 1: // a long name, around the limit of the builder
-			total := 0
-			for total < 240+r.Intn(20) {
-				l := c11label(r, true)
-				ls = append(ls, l)
-				total += len(l) + 1
-			}
+		case 1: // a long name, at or around the limit of the builder (253 octets with the length octets)
+			ls = c11longName(r, []int{253, 253, 253, 252, 254, 200 + r.Intn(54)}[r.Intn(6)], true)
 		default:
 			ls = name(4)
+		}
+		if r.Intn(12) != 0 {
+			ls = c11fit(ls, 253)
 		}
 		names = append(names, ls)
 		text := c11join(ls)
@@ -564,15 +593,17 @@ func c11random(r *rand.Rand, emit func(c, cat string)) {
 			} else {
 				addq(append(append([][]byte(nil), base...), pool[r.Intn(len(pool))]))
 			}
-		case 7: // long
-			var ls [][]byte
-			total := 0
-			for total < 200+r.Intn(60) {
-				l := c11label(r, false)
-				ls = append(ls, l)
-				total += len(l) + 1
+		case 7: // long, at or around the limit of the scanner (254 octets with the length octets)
+			target := []int{254, 254, 253, 255, 200 + r.Intn(55)}[r.Intn(5)]
+			used := 0
+			for _, l := range base {
+				used += len(l) + 1
 			}
-			addq(append(ls, base...))
+			if target-used >= 2 {
+				addq(append(c11longName(r, target-used, false), base...))
+			} else {
+				addq(base)
+			}
 		case 8:
 			addq(name(4))
 		default:
@@ -597,7 +628,7 @@ func c11gen(r *rand.Rand, thorough bool, emit func(c, cat string)) {
 	c11exhaustive(r, thorough, emit)
 	n := 6000
 	if thorough {
-		n = 150000
+		n = 90000
 	}
 	for i := 0; i < n; i++ {
 		c11random(r, emit)
@@ -613,7 +644,7 @@ func c11genReadable(r *rand.Rand, thorough bool, emit func(c, cat string)) {
 	}
 	n := 3000
 	if thorough {
-		n = 100000
+		n = 60000
 	}
 	for i := 0; i < n; i++ {
 		var ls [][]byte
